@@ -79,19 +79,24 @@ def evaluate(i, scn):
     # the Hilbert spectrum is exactly twice the real one
     p_ = len(c["s2"])
     if c["dtype"] == "real" and c["kind"] == "perm" and not sw.lat and c["wp"] == "ones" and not c["std"] and c["cexp"] == 0 \
-            and c["solver"] == "full" and c["n"] >= 2 * p_ + 2 and c["center"]:
-        n_ = c["n"]
-        t = np.arange(n_)
-        H = np.stack([np.cos(2 * np.pi * (j + 1) * t / n_ + 0.37 * j) * np.sqrt(2.0 / n_) for j in range(p_)], axis=1)
-        Xh = sw.data(Z=H * np.sqrt(np.array(c["s2"], float)))
-        mh = W.fit_eof(xe.single.HilbertEOF, sw, Xh, padding="none")
-        evh = np.asarray(mh.explained_variance().values)
-        exp = 2 * np.array(scn["pred"]["sv2"], float) / W.DEN / (n_ - 1)
-        ck.p(len(evh) == len(exp) and np.allclose(evh, exp, rtol=1e-8, atol=1e-10), "C01", "C01_HilbertAugmented",
-             f"HilbertEOF (no padding) on whole-period harmonics: explained variances {evh.tolist()} differ from twice the real spectrum {exp.tolist()}")
-        Vh = np.asarray(mh.data["components"].transpose(..., "mode").values)
-        ck.m(np.abs(Vh.conj().T @ Vh - np.eye(Vh.shape[1])).max() <= 1e-8, "C01", "C01_ComponentsOrthonormal", "HilbertEOF components are not orthonormal")
-        count["HilbertEOF"] = 1
+            and c["solver"] == "full" and c["center"] and not c.get("constmode"):
+        # the world's own length (when it holds whole periods of every harmonic) and a prime length (an FFT length
+        # that is not "fast": the transform must be taken at the length of the series itself)
+        for n_ in sorted({c["n"], 17}):
+            if n_ < 2 * p_ + 2:
+                continue
+            swh = sw if n_ == c["n"] else W.SingleWorld(dict(c, n=n_), seed=common.seed(), wide=c["wide"])
+            t = np.arange(n_)
+            H = np.stack([np.cos(2 * np.pi * (j + 1) * t / n_ + 0.37 * j) * np.sqrt(2.0 / n_) for j in range(p_)], axis=1)
+            Xh = swh.data(Z=H * np.sqrt(np.array(c["s2"], float)))
+            mh = W.fit_eof(xe.single.HilbertEOF, swh, Xh, padding="none")
+            evh = np.asarray(mh.explained_variance().values)
+            exp = 2 * np.array(scn["pred"]["sv2"], float) / W.DEN / (n_ - 1)
+            ck.p(len(evh) == len(exp) and np.allclose(evh, exp, rtol=1e-8, atol=1e-10), "C01", "C01_HilbertAugmented",
+                 f"HilbertEOF (no padding, n={n_}) on whole-period harmonics: explained variances {evh.tolist()} differ from twice the real spectrum {exp.tolist()}")
+            Vh = np.asarray(mh.data["components"].transpose(..., "mode").values)
+            ck.m(np.abs(Vh.conj().T @ Vh - np.eye(Vh.shape[1])).max() <= 1e-8, "C01", "C01_ComponentsOrthonormal", "HilbertEOF components are not orthonormal")
+            count["HilbertEOF"] = count.get("HilbertEOF", 0) + 1
     return dict(found=ck.found, P=ck.P, D=ck.D, M=ck.M, count=count, ctx=dict(wide=c["wide"]))
 
 
